@@ -167,6 +167,9 @@ func bytesToString(ex *Exec, v Value) Value {
 		if len(x.Alts) == 0 {
 			return StrLit("")
 		}
+		if isSparse(x) {
+			x = ex.densify(x, types.Typ[types.Uint8])
+		}
 		var acc Value
 		for i, a := range x.Alts {
 			var cur Value
